@@ -10,6 +10,7 @@ import IpcHub.Lemmas.RtspWireStream
 import IpcHub.Lemmas.RtspWirePanic
 import IpcHub.Lemmas.RtspWireCanon
 import IpcHub.Lemmas.RtspWirePrefix
+import IpcHub.Lemmas.WsTransport
 import IpcHub.Model.RtspWireInst
 namespace IpcHub.Props.C14
 open IpcHub.RtspWire
@@ -174,6 +175,67 @@ theorem c14_chunking {U : Type} (ops : UrlOps U) (chans : List Int) (s t : Bytes
    fun q r h => readRequest_stable genCfg c14_codec_facts.2.2.1 ops s q r h t,
    fun q r h => readResponse_stable genCfg c14_codec_facts.2.2.1 s q r h t,
    fun o r h => readPacket_stable genCfg chans s o r h t⟩
+
+/-- The second kind of connection the receive loop reads from — RTSP over WebSocket
+    (network/websocket/websocket.go `(*websocketTransport).Read`, wrapped in `buffered.NewConn`
+    by `newSession`): the source facts the transport model rests on, regenerated on every run.
+    The current message reader is dropped only where it reported `io.EOF`; `NextReader` is
+    called in one place, when there is no current reader; `c.reader` is set in one place, from
+    it; one `c.reader.Read(b)` per call. -/
+theorem c14_ws_source_facts :
+    IpcHub.Gen.wsReaderDroppedOnlyAtEOF = true ∧ IpcHub.Gen.wsNextReaderOnlyWhenNil = true ∧
+    IpcHub.Gen.wsReaderSetFromNextReader = true ∧ IpcHub.Gen.wsReadOncePerCall = true ∧
+    genWsCfg.dropOnlyAtEOF = true := by
+  decide
+
+/-- `c14_ws_transport_lossless`: for EVERY sequence of WebSocket data messages, every way their
+    readers hand the payload out in pieces (frame borders of fragmented messages, read-buffer
+    borders, segment borders, empty fragments and empty messages) and EVERY sequence of `Read`
+    calls with any buffer lengths: the bytes returned so far, followed by the bytes not yet
+    returned, are exactly the bytes sent — nothing is lost, duplicated or reordered, at any
+    point of the reading. -/
+theorem c14_ws_transport_lossless (msgs : List IpcHub.WsTransport.Msg) (caps : List Nat) :
+    (IpcHub.WsTransport.drain genWsCfg caps ⟨none, msgs⟩).1 ++
+      IpcHub.WsTransport.pending (IpcHub.WsTransport.drain genWsCfg caps ⟨none, msgs⟩).2 =
+    (msgs.map List.flatten).flatten := by
+  simpa [IpcHub.WsTransport.pending] using
+    IpcHub.WsTransport.drain_lossless genWsCfg c14_ws_source_facts.2.2.2.2 caps ⟨none, msgs⟩
+
+/-- `c14_ws_transport_delivers`: a byte stream cut into messages and pieces in ANY way (`plan`:
+    per message the lengths of its pieces) and read to the end with buffers of at least one byte
+    arrives unchanged. -/
+theorem c14_ws_transport_delivers (plan : List (List Nat)) (s : Bytes) (cap : Nat) (hc : 1 ≤ cap) :
+    IpcHub.WsTransport.deliver genWsCfg cap (IpcHub.WsTransport.cutMsgs plan s) = s := by
+  rw [IpcHub.WsTransport.deliver_eq genWsCfg c14_ws_source_facts.2.2.2.2 cap hc, IpcHub.WsTransport.cutMsgs_flatten]
+
+/-- `c14_ws_stream`: `c14_stream` on the WebSocket transport — for every list of emit-able
+    requests, responses and interleaved frames whose concatenation travels as WebSocket messages
+    cut at ANY points into ANY pieces, the receive loop over what the transport delivers yields
+    exactly that sequence and then ends.  (The model's end of stream is `.eof`; on the real
+    transport it is gorilla's close error.) -/
+theorem c14_ws_stream {U : Type} (ops : UrlOps U) (chans : List Int) (items : List (Item U))
+    (hok : ∀ it ∈ items, it.OK genCfg ops genStatusTable chans genMaxLine genMaxBody) (fuel : Nat) (hf : fuel > items.length)
+    (plan : List (List Nat)) (cap : Nat) (hc : 1 ≤ cap) :
+    receiveAll genCfg ops chans fuel
+      (IpcHub.WsTransport.deliver genWsCfg cap
+        (IpcHub.WsTransport.cutMsgs plan ((items.map (fun it => it.wire ops genStatusTable chans)).flatten))) =
+      (items.map (fun it => it.event genCfg genStatusTable), .eof) := by
+  rw [c14_ws_transport_delivers plan _ cap hc]
+  exact c14_stream ops chans items hok fuel hf
+
+/-- Why the reader must be kept until `io.EOF`: a transport that also drops it after a short
+    read (fewer bytes than asked for) loses the rest of every message that is not handed out in
+    one piece — proved on the model with that flag: of the messages `[1][2]` (two fragments) and
+    `[3]`, read with buffers of 4 bytes, the byte 2 never arrives (a test on literals). -/
+theorem c14_ws_drop_on_short_read_counterexample :
+    IpcHub.WsTransport.deliver { dropOnlyAtEOF := false } 4 [[[1], [2]], [[3]]] = [1, 3] ∧
+    IpcHub.WsTransport.deliver genWsCfg 4 [[[1], [2]], [[3]]] = [1, 2, 3] := by
+  decide
+
+/-- non-vacuity of the plan: a stream cut into a two-fragment message, an empty message and a
+    rest arrives whole -/
+example : IpcHub.WsTransport.deliver genWsCfg 2 (IpcHub.WsTransport.cutMsgs [[1, 2], [], [0, 1]] [10, 11, 12, 13, 14]) = [10, 11, 12, 13, 14] := by
+  decide
 
 /-- field names are case-insensitive: a name that equals a known field up to ASCII case reads
     back in the canonical spelling, any other ASCII name unchanged -/
